@@ -90,6 +90,13 @@ def run(ctx: Ctx) -> None:
         q = p if p.requires_grad else None
         a = uo.Adam([p], lr=1.0).param_groups[0]["lr"]
         s = uo.SGD([p], lr=1.0, readout_constraint="to_output_scale").param_groups[0]["lr"]
+        # a tensor learning rate gives the same scale (to float32 precision), whatever the parameter's dtype has become
+        ta = uo.AdamW([p], lr=torch.tensor(1e-3)).param_groups[0]["lr"]
+        ts = uo.SGD([p], lr=torch.tensor(1e-3), readout_constraint="to_output_scale").param_groups[0]["lr"]
+        for name_, tv, fv in (("AdamW", ta, a), ("SGD", ts, s)):
+            if abs(float(tv) / 1e-3 - float(fv)) > 1e-5 * abs(float(fv)):
+                raise ValueError(f"tensor lr gives scale {float(tv) / 1e-3!r} but float lr gives {float(fv)!r} ({name_}, "
+                                 f"parameter dtype {p.dtype})")
         return (float(a), float(s))
 
     plans: List[Tuple[str, Optional[int], int]] = []
